@@ -1229,4 +1229,169 @@ def requiredWith (kPred kOff kRwds : List String) (c : ConfigX) (hasScore : Bool
 /-- the default of the `record` argument -/
 def defaultRecord : List String := ["reward", "action", "probability"]
 
+/-! ## Phase 5: the calls the learner OBJECT sees (SafeLearner between `SequentialCB` and the learner)
+
+`Call` above is the row-level reading of a call.  What reaches the methods of the wrapped learner object is decided by
+`SafeLearner._safe_call` (per method key: `_method[key]` unset → try the call as given; with batched arguments a
+learner that raises is then called once per row and the key is pinned to the row-by-row fallback), by
+`SafeLearner._parse_pred` on the FIRST predict (`_pred_batch is None`: `batch_order` asks the learner a second time
+about the first row of the batch when the answer is square — as many rows as the first row's answer has items — and the
+call went through as given), and by the two `has_score` reads of `evaluate` (`_validate(first, learner.has_score)`) and
+`_results` (`has_score = learner.has_score`), each of which calls `score(None, None, None)` when the learner has `score`.
+Interactions are named by their position in the environment. -/
+
+inductive Meth | predict | score | learn
+  deriving DecidableEq, Repr
+
+/-- one invocation of a method of the learner object -/
+inductive RawCall where
+  | scoreProbe                                   -- `score(None,None,None)` made by `SafeLearner.has_score`
+  | batch (m : Meth) (rows : List Nat) (ok : Bool) -- called with `Batch` arguments carrying these interactions; `ok = false`: the learner raised
+  | row (m : Meth) (i : Nat)                     -- called with the plain values of interaction `i`
+  | orient (i : Nat)                             -- `predict(Batch([ctx_i]), Batch([actions_i]))`: the orientation probe of `batch_order`
+  deriving DecidableEq, Repr
+
+/-- the part of a `SafeLearner`'s state that decides how it calls: `_method[key]` (`some true` = 1, as given;
+`some false` = 2, row by row) and `_pred_batch is not None` -/
+structure SafeSt where
+  mPredict : Option Bool := none
+  mScore : Option Bool := none
+  mLearn : Option Bool := none
+  parsed : Bool := false
+  deriving DecidableEq, Repr
+
+def SafeSt.get (st : SafeSt) : Meth → Option Bool
+  | .predict => st.mPredict
+  | .score => st.mScore
+  | .learn => st.mLearn
+
+def SafeSt.set (st : SafeSt) (m : Meth) (b : Bool) : SafeSt :=
+  match m with
+  | .predict => { st with mPredict := some b }
+  | .score => { st with mScore := some b }
+  | .learn => { st with mLearn := some b }
+
+/-- `_safe_call(key, method, args)` with batched `args` carrying the interactions `rows`; `aware`: the learner accepts
+batched arguments -/
+def safeCall (aware : Bool) (st : SafeSt) (m : Meth) (rows : List Nat) : SafeSt × List RawCall :=
+  match st.get m with
+  | some true => (st, [.batch m rows true])
+  | some false => (st, rows.map (.row m))
+  | none =>
+    if aware then (st.set m true, [.batch m rows true])
+    else (st.set m false, .batch m rows false :: rows.map (.row m))
+
+/-- `SafeLearner.predict` on a batch: the call, then — first parse only — the orientation probe.  `width` = `len()` of
+the first row's answer when it has one and the rows are not all mappings (`none` otherwise: `batch_order` answers 'row'
+without asking) -/
+def predictCall (aware : Bool) (width : Option Nat) (st : SafeSt) (rows : List Nat) : SafeSt × List RawCall :=
+  let r := safeCall aware st .predict rows
+  if r.1.parsed then r
+  else
+    let probe := r.1.mPredict == some true && width == some rows.length
+    ({ r.1 with parsed := true }, r.2 ++ (if probe then (rows.head?.map RawCall.orient).toList else []))
+
+/-- one method of one loop pass -/
+def phaseCall (batched aware : Bool) (width : Option Nat) (st : SafeSt) (m : Meth) (rows : List Nat) : SafeSt × List RawCall :=
+  if !batched then
+    -- no argument is a batch: `_method[key]` becomes 1 if unset, the call goes through as given; 'not' batched, no probe
+    (if m == .predict then { (if (st.get m).isNone then st.set m true else st) with parsed := true }
+     else (if (st.get m).isNone then st.set m true else st), rows.map (.row m))
+  else if m == .predict then predictCall aware width st rows
+  else safeCall aware st m rows
+
+/-- one loop pass of `_results`: the methods of `phases` in order, all on the rows of this pass -/
+def rawChunk (batched aware : Bool) (width : Option Nat) : List Meth → SafeSt → List Nat → SafeSt × List RawCall
+  | [], st, _ => (st, [])
+  | m :: ms, st, rows =>
+    let r := phaseCall batched aware width st m rows
+    let r' := rawChunk batched aware width ms r.1 rows
+    (r'.1, r.2 ++ r'.2)
+
+def rawRun (batched aware : Bool) (width : Option Nat) (phases : List Meth) : SafeSt → List (List Nat) → List RawCall
+  | _, [] => []
+  | st, ch :: rest =>
+    let r := rawChunk batched aware width phases st ch
+    r.2 ++ rawRun batched aware width phases r.1 rest
+
+/-- the methods one loop pass of `_results` calls, in order (`should_pred`, the score-based IPS branch, `if learn`) -/
+def phasesOf (c : Config) (hasScore : Bool) : List Meth :=
+  let sp := shouldPred c hasScore
+  (if sp then [.predict] else []) ++ (if c.eval == .ips && hasScore && !sp then [.score] else [])
+    ++ (if c.learn != .none then [.learn] else [])
+
+/-- every call the learner object receives during `SequentialCB(c).evaluate(env, learner)` with a learner that is not
+yet wrapped (a fresh `SafeLearner` is made by every `evaluate`): `len` interactions, `missing` = validation rejects -/
+def callsSeen (c : Config) (hasScore aware : Bool) (width : Option Nat) (bs : Option Nat) (len : Nat) (missing : Bool) :
+    List RawCall :=
+  if len == 0 then []
+  else
+    (if hasScore then [.scoreProbe] else []) ++
+    (if missing then []
+     else (if hasScore then [RawCall.scoreProbe] else []) ++
+       rawRun bs.isSome aware width (phasesOf c hasScore) {}
+         (match bs with
+          | some n => chunks n (List.range len)
+          | none => chunks 1 (List.range len)))
+
+/-- the row-level reading of a raw call sequence: attempts the learner refused, `has_score` probes and orientation
+probes carry nothing; a batch call is one call per row -/
+def rowLevel : List RawCall → List (Meth × Nat)
+  | [] => []
+  | .scoreProbe :: t => rowLevel t
+  | .orient _ :: t => rowLevel t
+  | .batch _ _ false :: t => rowLevel t
+  | .batch m rows true :: t => rows.map (fun i => (m, i)) ++ rowLevel t
+  | .row m i :: t => (m, i) :: rowLevel t
+
+/-- what the evaluation loop asks for: pass by pass, method by method, row by row -/
+def skeleton (phases : List Meth) (cs : List (List Nat)) : List (Meth × Nat) :=
+  cs.flatMap (fun ch => phases.flatMap (fun m => ch.map (fun i => (m, i))))
+
+def Call.meth : Call V → Meth
+  | .predict .. => .predict
+  | .score .. => .score
+  | .learn .. => .learn
+
+def countOrient : List RawCall → Nat
+  | [] => 0
+  | .orient _ :: t => countOrient t + 1
+  | _ :: t => countOrient t
+
+def countRefused : List RawCall → Nat
+  | [] => 0
+  | .batch _ _ false :: t => countRefused t + 1
+  | _ :: t => countRefused t
+
+/-! ## Phase 5 (translator tie): the record-construction code of `_results` as an interpreted program
+
+`flagDefs` = the `out_x = '<name>' in self._record [and <guard>]` assignments, `prog` = in program order every
+`if <atom> and … : out['<key>'] = …` of the loop body; both are extracted from the source (Generated/C06RowProgram). -/
+
+/-- guards of the flag definitions: `eval` (truthy unless None), `has_actions`, `has_rewards` of the first interaction -/
+def guardVal (c : Config) (fl : Flags) (g : String) : Bool :=
+  if g == "" then true else if g == "eval" then c.eval != .none else if g == "has_actions" then fl.hasActions
+  else if g == "has_rewards" then fl.hasRewards else false
+
+/-- an atom of a row statement's condition: `learn` (truthy unless None), `should_pred`, `on_pr is not None` (always in a
+batched pass: a list), or a flag looked up in the flag definitions -/
+def atomVal (defs : List (String × String × String)) (c : Config) (fl : Flags) (sp batched hasPr : Bool) (a : String) : Bool :=
+  if a == "learn" then c.learn != .none else if a == "should_pred" then sp else if a == "on_pr" then (batched || hasPr)
+  else match defs.lookup a with
+    | some (name, g) => c.rcd name && guardVal c fl g
+    | none => false
+
+/-- cells that are written but not part of `recordKeys`: the timing columns (presence only, values are wall-clock) and
+`ope_loss` (the constructor refuses it without vowpalwabbit) -/
+def unmodelledCells : List String := ["predict_time", "learn_time", "ope_loss"]
+
+/-- run the extracted program: the reserved-name cells of one row, in order -/
+def progKeys (defs : List (String × String × String)) (prog : List (String × List String)) (c : Config) (fl : Flags)
+    (sp batched hasPr : Bool) : List String :=
+  (prog.filter (fun ka => ka.2.all (atomVal defs c fl sp batched hasPr))).map (·.1)
+
+/-- the timing cells of a row (presence only): `predict_time` iff 'time' is recorded, `learn_time` iff also `learn` is called -/
+def timeKeys (c : Config) : List String :=
+  (if c.rcd "time" then ["predict_time"] else []) ++ (if c.rcd "time" && c.learn != .none then ["learn_time"] else [])
+
 end Coba.C06
